@@ -90,10 +90,27 @@ def bump (s : St) : St := { s with requests := s.requests + 1 }
 /-- the number of alternate links one load follows at most (Go: maxAlternateHops, fix D19) -/
 def maxHops : Nat := 10
 
-/-- loadDocumentFromHTTP. `hops` = alternate links that may still be followed. A page with an alternate link is
-    answered with whatever loading the target gives, and that document is stored under the page's URL with the
-    page's own policy (known finding F9). -/
-def loadHTTP (cfg : Cfg) : Nat → St → String → St × Res
+/-- where LoadDocument's scheme dispatch sends a URL: to the HTTP client (with the URL itself, or with the gateway's URL
+    for an ipfs URL when only a gateway is configured), to the IPFS node client (under the key the node knows the document
+    by), or nowhere (every other scheme, and ipfs URLs when nothing is configured for them) -/
+inductive Route
+  | http (u : String)
+  | node (key : String)
+  | reject
+deriving DecidableEq, Repr
+
+/-- the IPFS node client: no cache at all -/
+def loadIPFSNode (s : St) (u : String) : St × Res :=
+  let s := { s with requests := s.requests + 1 }
+  match s.origin.lookup u with
+  | some (.serves v _) => (s, .doc v)
+  | _ => (s, .err)
+
+/-- loadDocumentFromHTTP. `hops` = alternate links that may still be followed. The target of an alternate link is a
+    URL like any other: it goes through the scheme dispatch again (`route`; Go: d.loadDocument(finalURL, hops+1)). A page
+    with an alternate link is answered with whatever loading the target gives, and that document is stored under the
+    page's URL with the page's own policy (known finding F9). -/
+def loadHTTP (cfg : Cfg) (route : String → Route) : Nat → St → String → St × Res
   | hops, s, u =>
     match cacheHit cfg s u with
     | some v => (s, .doc v)
@@ -107,39 +124,39 @@ def loadHTTP (cfg : Cfg) : Nat → St → String → St × Res
         match hops with
         | 0 => (s1, .err)
         | h+1 =>
-          match loadHTTP cfg h s1 t with
-          | (s2, .doc v) => (store cfg s2 u v p, .doc v)
-          | (s2, _) => (s2, .err)
-
-/-- the IPFS node client: no cache at all -/
-def loadIPFSNode (s : St) (u : String) : St × Res :=
-  let s := { s with requests := s.requests + 1 }
-  match s.origin.lookup u with
-  | some (.serves v _) => (s, .doc v)
-  | _ => (s, .err)
+          match route t with
+          | .reject => (s1, .err)
+          | .node key =>
+            match loadIPFSNode s1 key with
+            | (s2, .doc v) => (store cfg s2 u v p, .doc v)
+            | (s2, _) => (s2, .err)
+          | .http t' =>
+            match loadHTTP cfg route h s1 t' with
+            | (s2, .doc v) => (store cfg s2 u v p, .doc v)
+            | (s2, _) => (s2, .err)
 
 /-- LoadDocument: dispatch on the scheme; for ipfs the client wins over the gateway -/
-def load (cfg : Cfg) (s : St) (scheme : Scheme) (u gatewayURL : String) : St × Res :=
+def load (cfg : Cfg) (route : String → Route) (s : St) (scheme : Scheme) (u gatewayURL : String) : St × Res :=
   match scheme with
-  | .http => loadHTTP cfg maxHops s u
+  | .http => loadHTTP cfg route maxHops s u
   | .ipfs =>
     if cfg.ipfsClient then loadIPFSNode s u
-    else if cfg.ipfsGateway then loadHTTP cfg maxHops s gatewayURL
+    else if cfg.ipfsGateway then loadHTTP cfg route maxHops s gatewayURL
     else (s, .err)
   | .other => (s, .err)
 
-def step (cfg : Cfg) (s : St) : Op → St × Res
+def step (cfg : Cfg) (route : String → Route) (s : St) : Op → St × Res
   | .serve u v p => ({ s with origin := setOrigin s.origin u (.serves v p) }, .none_)
   | .serveAlt u t p => ({ s with origin := setOrigin s.origin u (.alt t p) }, .none_)
   | .fail u => ({ s with origin := setOrigin s.origin u .fails }, .none_)
   | .tick n => ({ s with now := s.now + n }, .none_)
-  | .load sc u g => load cfg s sc u g
+  | .load sc u g => load cfg route s sc u g
 
-def run (cfg : Cfg) : St → List Op → St × List Res
+def run (cfg : Cfg) (route : String → Route) : St → List Op → St × List Res
   | s, [] => (s, [])
   | s, op :: ops =>
-    let (s', r) := step cfg s op
-    let (s'', rs) := run cfg s' ops
+    let (s', r) := step cfg route s op
+    let (s'', rs) := run cfg route s' ops
     (s'', r :: rs)
 
 /-! ### C20: interleaved execution of several loader threads over one shared cache.
